@@ -399,8 +399,19 @@ def run(rep, tier):
         rep.set("api_" + k, v)
     rep.set("api_scenarios", [f"{a[0]} (deviation bound {a[1]})" for a in ats])
     rep.set("api_complete_within_deviation_bounds", api_complete)
+    # ---- local async actions through the non-blocking process_events API (vf/props/c11_async.py)
+    from vf.props import c11_async
+    asy = {"executions": 0, "cut_executions": 0, "schedules": 0, "executions_with_a_pending_action_at_a_cut": 0, "results_delivered": 0}
+    for r in par.pmap(c11_async.explore, c11_async.tasks(tier)):
+        for k in asy:
+            asy[k] += r.get(k, 0)
+        for sig, what, info in r["viol"]:
+            rep.violation(sig, what, info)
+    for k, v in asy.items():
+        rep.set("async_actions_" + k, v)
     rep.set("exhaustive", True)
     rep.assumptions += [
+        "async part: RuntimeV2_x.process_events (non-blocking) with local actions registered execute_async=True whose completion the harness gates; 4 calls (Begin + polls), every subset of the call boundaries as save/restore points x every assignment of action completions to boundaries x both report orders of actions finishing between the same two calls (asyncio.wait's done set is handed to the runtime as an ordered list); reference = the uncut execution of the same schedule",
         "API part: a Colang 2.x world (core library, one LLM value generation in turn 2); turn 1 on the shared LLMRails instance, then requests that all carry the snapshot of turn 1 (double / triple submit, a request cancelled at any point and retried) on the virtual asyncio loop, every arrival / LLM completion / timer / cancellation order up to the stated number of deviations from the default schedule; oracle = a fresh instance restoring the same snapshot (reply, and the reply of the following turn continued from the returned state)",
         "programs: variable zoo (sets, nested containers, int-key dicts, regex, comparison expressions, tuples), references to flows/actions/events, shared actions, globals, forked heads, when scopes, activation restart, loops, flow parameters + deterministic subsets of the C06 hierarchy programs and C07 group programs",
         "live and cut copies continue with the same uid counter and the same tie-break vector, so outgoing events must be *equal* (not just equal up to renaming)",
@@ -413,6 +424,9 @@ def replay(rp):
     if rp.get("part") == "api":
         from vf.props import c11_api
         return c11_api.replay(rp)
+    if rp.get("engine") == "C11-async":
+        from vf.props import c11_async
+        return c11_async.replay(rp)
     src = rp["source"]
     st = v2x.init_state(src, with_rails_config=rp.get("program") in REF_PROGRAMS or rp.get("program") in ZOO)
     n = v2x.UIDS.n
